@@ -333,11 +333,16 @@ _BINNAMES = {"AddWithOverflow": "add", "SubWithOverflow": "sub", "MulWithOverflo
              "Lt": "lt", "Le": "le", "Gt": "gt", "Ge": "ge", "Eq": "eq", "Ne": "ne", "BitAnd": "bitand", "BitOr": "bitor", "BitXor": "bitxor", "Shl": "shl", "Shr": "shr"}
 
 
+_PATH = None     # (fn, [blocks]) while bool_paths evaluates one concrete path: multi-definition locals resolve to the definition on it
+
+
 ASSOCIATIVE = {"add", "mul", "checked_add", "checked_mul", "min", "max", "bitand", "bitor"}
 
 
 def mk_call(nm, args):
     """name(args) with commutative arguments sorted and associative nests flattened"""
+    if nm in ("gt", "ge") and len(args) == 2:
+        nm, args = ("lt" if nm == "gt" else "le"), [args[1], args[0]]      # one spelling per relation
     if nm in ASSOCIATIVE:
         flat = []
         for a in args:
@@ -402,11 +407,23 @@ def _sfx(flds):
 
 
 def _assigned(f, l):
-    return bool(f.local_defs().get(l))
+    """is parameter l re-assigned as a whole (field stores through it do not count)"""
+    for (bi, si) in f.local_defs().get(l) or []:
+        if si == "T":
+            t = f.blocks[bi]["t"]
+            if not (t.get("dest") or {}).get("p"):
+                return True
+        elif not f.blocks[bi]["s"][si]["d"].get("p"):
+            return True
+    return False
 
 
 def _local_tree(prog, f, l, flds, depth, seen, inline):
     defs = f.local_defs().get(l) or []
+    if _PATH is not None and _PATH[0] is f and len(defs) > 1:
+        on = [d_ for d_ in defs if d_[0] in _PATH[1]]
+        if on:
+            defs = [max(on, key=lambda d_: _PATH[1].index(d_[0]))]
     if not defs:
         return "p%d%s" % (l, _sfx(flds)) if 1 <= l <= f.argc else "undef"
     if l in seen:
@@ -477,6 +494,8 @@ def rvalue_tree(prog, f, v, flds=(), depth=0, seen=frozenset(), inline=0):
             g = prog.fns.get(f.dinfo(v["def"])["key"])
             if g is not None and depth < 30:
                 body = _local_tree(prog, g, 0, [], depth + 1, frozenset(), inline)
+                # the closure's own arguments become a2, a3 ... so that they cannot be confused with the enclosing function's parameters
+                body = re.sub(r"(?<![\w.])p([2-9])(?![\w])", r"a\1", body)
                 # captured upvars appear in the closure body as p1.<i>
                 for i in sorted(range(len(caps)), reverse=True):
                     body = re.sub(r"(?<![\w.])p1\.%d(?![\w])" % i, lambda m_, c=caps[i]: c, body)
@@ -629,6 +648,15 @@ def _expand_materialised_bool(prog, f, sw, arm):
     return out
 
 
+def _neg_cond(c):
+    sc = split_call(c)
+    if sc and sc[0] == "not" and len(sc[1]) == 1:
+        return sc[1][0]
+    if sc and sc[0] in ("lt", "le", "eq", "ne") and len(sc[1]) == 2:
+        return norm_cond(c, False)
+    return "not(%s)" % c
+
+
 def bool_paths(prog, f, limit=256):
     """for a small loop-free bool function: [(sorted conds, return tree)] for every entry->return path"""
     out = []
@@ -653,7 +681,15 @@ def bool_paths(prog, f, limit=256):
         t = f.blocks[b]["t"]
         blocks = blocks + [b]
         if t["k"] == "return":
-            out.append((sorted(conds), retval_on(blocks)))
+            cs = set(conds)
+            if any(_neg_cond(c) in cs for c in cs):
+                return          # contradictory conditions: infeasible path
+            global _PATH
+            _PATH = (f, blocks)
+            try:
+                out.append((sorted(cs), retval_on(blocks)))
+            finally:
+                _PATH = None
             return
         if t["k"] == "switch":
             for a, tgt in t["arms"]:
@@ -698,4 +734,119 @@ def dominating_conds(prog, f, block, limit=40):
             out.append(switch_cond(prog, f, s, live[0][0]))
         if len(out) >= limit:
             break
+    return out
+
+
+def store_trees(prog, f, inline=0):
+    """{written place (canonical string) -> sorted list of expression trees stored there} for the direct stores of f
+    through its parameters (e.g. {'p1.account_flags': ['bitor(p1.account_flags,p2)']})"""
+    out = {}
+    for bi, bb in enumerate(f.blocks):
+        for s in bb["s"]:
+            d = s.get("d")
+            v = s.get("v")
+            if not d or not v or not d.get("p"):
+                continue
+            dst = expr_tree(prog, f, {"c": d}, inline=inline)
+            if not re.match(r"p\d+[.\[]", dst):
+                continue
+            out.setdefault(dst, set()).add(rvalue_tree(prog, f, v, inline=inline))
+    return {k: sorted(v) for k, v in out.items()}
+
+
+def effect_paths(prog, f, limit=256, inline=0):
+    """for a small loop-free function: [(sorted conds, return tree, {place: stored tree})] per feasible entry->return path"""
+    out = []
+
+    def finish(blocks, conds):
+        global _PATH
+        cs = set(conds)
+        if any(_neg_cond(c) in cs for c in cs):
+            return
+        _PATH = (f, blocks)
+        try:
+            ret = None
+            stores = {}
+            for b in blocks:
+                for s in f.blocks[b]["s"]:
+                    d, v = s.get("d"), s.get("v")
+                    if not d or not v:
+                        continue
+                    if d["l"] == 0 and not d.get("p"):
+                        ret = rvalue_tree(prog, f, v, inline=inline)
+                    elif d.get("p"):
+                        dst = expr_tree(prog, f, {"c": d}, inline=inline)
+                        if re.match(r"p\d+[.\[]", dst):
+                            stores[dst] = rvalue_tree(prog, f, v, inline=inline)
+                t = f.blocks[b]["t"]
+                if t["k"] == "call" and t["dest"]["l"] == 0 and not t["dest"].get("p"):
+                    ci = f.dinfo(t["res"]) if t.get("res") is not None else (f.dinfo(t["raw"]) if "raw" in t else None)
+                    ret = mk_call(ci["name"] if ci else "indirect", [expr_tree(prog, f, a, inline=inline) for a in t["args"]])
+            out.append((sorted(cs), ret, stores))
+        finally:
+            _PATH = None
+
+    def walk(b, conds, blocks, seen):
+        if len(out) >= limit or b in seen:
+            return
+        t = f.blocks[b]["t"]
+        blocks = blocks + [b]
+        if t["k"] == "return":
+            finish(blocks, conds)
+            return
+        if t["k"] == "switch":
+            for a, tgt in t["arms"]:
+                walk(tgt, conds + [switch_cond(prog, f, b, int(a))], blocks, seen | {b})
+            walk(t["else"], conds + [switch_cond(prog, f, b, "else")], blocks, seen | {b})
+            return
+        for n in term_succ_normal(t):
+            walk(n, conds, blocks, seen | {b})
+    walk(0, [], [], frozenset())
+    return out
+
+
+def loop_early_exits(prog, f, header):
+    """Edges that leave the loop whose header block is `header` (the block calling Iterator::next) other than
+    (a) the exhausted arm of that next(), (b) into blocks from which an error / panic is inevitable.
+    Returns [(from_block, to_block, condition string)]."""
+    succ = f.succ()
+    from_h = f.reachable(start=header)
+    body = {b for b in from_h if b != header and header in f.reachable(start=b)}
+    if not body:
+        return []          # not a loop
+    body.add(header)
+    err = set(A.error_blocks(f)) | set(A.diverging_blocks(f))
+    doomed = A.inevitable_closure(f, err) if err else set()
+    # the block that switches on next()'s discriminant
+    t = f.blocks[header]["t"]
+    disc_sw = None
+    b = t.get("to")
+    hops = 0
+    while b is not None and hops < 6:
+        tb = f.blocks[b]["t"]
+        if tb["k"] == "switch":
+            disc_sw = b
+            break
+        nx = term_succ_normal(tb)
+        b = nx[0] if len(nx) == 1 else None
+        hops += 1
+    out = []
+    for u in sorted(body):
+        for v in succ[u]:
+            if v in body:
+                continue
+            if f.blocks[v].get("cleanup"):
+                continue
+            if u == disc_sw:
+                continue
+            if v in doomed or v in err:
+                continue
+            tu = f.blocks[u]["t"]
+            cond = "?"
+            if tu["k"] == "switch":
+                arm = next((int(a) for a, tg in tu["arms"] if tg == v), "else")
+                cond = switch_cond(prog, f, u, arm)
+            elif tu["k"] == "call" and tu.get("unwind") == v:
+                continue
+            out.append((u, v, cond))
     return out
